@@ -155,7 +155,12 @@ def rule_cover(ctx):
   D = (Gn - 1) * step + (T - 1) - (n - 1)
   LB, used = apply_floor_lemma(D, {Ta})
   if LB is None:
-    ctx.record(R, f.where, "reach: (G-1)*t + T - 1 >= n - 1", None, "cannot bound: %s" % used)
+    fd = [a for a in Gn.all_atoms() if a.kind == "fdiv"]
+    if fd and not (as_poly(fd[0].args[1]) - step).is_zero():
+      ctx.record(R, f.where, "reach: (G-1)*t + T - 1 >= n - 1", False, "the number of giant steps G = %r divides by %r but the search advances by t = %r: "
+                 "(G - 1) * t can stop short of n - 1" % (Gn, as_poly(fd[0].args[1]), step))
+    else:
+      ctx.record(R, f.where, "reach: (G-1)*t + T - 1 >= n - 1", None, "cannot bound: %s" % used)
   else:
     okR = provably_nonneg(LB, {Ta})
     ctx.record(R, f.where, "reach: (G-1)*t + T - 1 >= n - 1", okR, "lower bound %r >= 0 by %s (G = %r)" % (LB, used, Gn) if okR else
@@ -315,6 +320,16 @@ def cache_rule(ctx, R, fname, size_name):
     for f_ in e.facts:
       if f_[0] == "cmp" and f_[1] == "Gt" and as_poly(f_[3]) == cur and req is not None and as_poly(f_[2]) != req:
         probs.append("guard compares %r but the table is built for %r" % (as_poly(f_[2]), req))
+  # the size left behind by earlier calls decides only whether to rebuild: it must not flow into the search arithmetic (step, count, bounds)
+  ca = cur.as_atom()
+  for e in w.events:
+    if e.kind == "setattr":
+      continue
+    vals = [e.data.get(k_) for k_ in ("value", "rhs", "index", "iter")] + (list(e.data.get("args", [])) if e.kind == "call" else [])
+    for v in vals:
+      if isinstance(v, Poly) and ca in v.all_atoms():
+        probs.append("`%s` computes with self._table_size, the size cached by an earlier call: the search depends on the history of the curve object" %
+                     (norm(e.node)[:70] if e.node is not None else e.kind))
   # lookups into the table happen after the ensure-block on every path
   ctx.record(R, f.where, "cache descriptor = contents", not probs, "; ".join(sorted(set(probs))) or
              "_table and _table_size written together under `requested > _table_size`, table built for exactly the stored size (%r)" % (req,))
